@@ -7,6 +7,7 @@ import (
 	"crypto/tls"
 	"crypto/x509"
 	"fmt"
+	"gosrc.io/xmpp/stanza"
 	"io"
 	"net/http"
 	"strings"
@@ -27,6 +28,9 @@ type vfC04Case struct {
 	Reconnect  bool   `json:"reconnect"`   // a first session with valid TLS precedes; the case describes the second connection
 	Transport  string `json:"transport"`   // tcp | ws | wss
 	Logger     bool   `json:"logger"`      // the traffic logger is switched on (Config.StreamLogger)
+	// SilentClose: the server does not answer the client's closing tag (the client's Close then runs into its timeout),
+	// and the application - which got an error from Connect - tries to send all the same
+	SilentClose bool `json:"silent_close,omitempty"`
 }
 
 const vfC04Domain = "localhost"
@@ -73,7 +77,7 @@ func vfC04ServerTLS(cert string) *tls.Config {
 
 // vfC04Serve is a hostile-but-helpful server: it always offers PLAIN, takes credentials over any channel, and
 // lets the client go as far as it is willing to go.
-func vfC04Serve(pc *vfPeerConn, offer, reply, cert string, bait bool) {
+func vfC04Serve(pc *vfPeerConn, offer, reply, cert string, bait, silentClose bool) {
 	pc.idle = 3 * time.Second
 	// bait: stanzas a server may well send right behind the answer that makes a careful client give up (a request that
 	// gets an automatic error reply when it is routed, a message, an ack request). Whatever the client does with
@@ -111,6 +115,10 @@ func vfC04Serve(pc *vfPeerConn, offer, reply, cert string, bait bool) {
 		}
 		switch {
 		case e.Kind == "close":
+			if silentClose && !pc.inTLS {
+				pc.drain(2500 * time.Millisecond) // no answer: only listening to what else arrives in clear text
+				return
+			}
 			pc.Send("</stream:stream>")
 			if bait && !pc.inTLS {
 				pc.drain(300 * time.Millisecond) // whatever the client still writes after its closing tag is logged too
@@ -204,7 +212,7 @@ func vfC04RunTCP(run *vfkit.Run, cs *vfC04Case) {
 			pc.Close()
 			return
 		}
-		vfC04Serve(pc, cs.Offer, cs.Reply, cs.Cert, !cs.Insecure)
+		vfC04Serve(pc, cs.Offer, cs.Reply, cs.Cert, !cs.Insecure, cs.SilentClose)
 	})
 	defer peer.Stop()
 	_ = mu
@@ -250,6 +258,12 @@ func vfC04RunTCP(run *vfkit.Run, cs *vfC04Case) {
 	} else {
 		close(release)
 		cerr = c.Connect()
+	}
+	if cs.SilentClose && cerr != nil {
+		// the application carries on regardless of the error it got
+		c.SendRaw("<message id='after-failed-connect-1' to='x@" + vfC04Domain + "'><body>raw</body></message>")
+		c.Send(stanza.Message{Attrs: stanza.Attrs{Id: "after-failed-connect-2", To: "x@" + vfC04Domain}, Body: "marshalled"})
+		run.Count("sends_attempted_after_failed_connect", 1)
 	}
 	go c.Disconnect()
 	conns := peer.Conns()
@@ -439,6 +453,11 @@ func TestVf_C04(t *testing.T) {
 		cases = append(cases, &vfC04Case{Insecure: ins, Transport: "ws", Cert: "none"})
 		for _, cert := range []string{"valid", "untrusted", "otherhost", "expired", "selfsigned"} {
 			cases = append(cases, &vfC04Case{Insecure: ins, Transport: "wss", Cert: cert})
+		}
+	}
+	for i, c := range cases {
+		if c.Transport == "tcp" && !c.Insecure && !c.Reconnect && i%3 == 0 {
+			c.SilentClose = true
 		}
 	}
 	// every TCP case also with the traffic logger on (it sits between the session and the socket)
